@@ -7,3 +7,23 @@ package rangecheck
 //@   trusted
 //@   pure
 //@   ensures result != nil
+
+// plain strategy: bit decomposition (bits.ToBinary is verified under C05)
+//@ contract (plainChecker).Check
+//@   props C13
+//@   requires pl.api != nil
+//@   ensures @in-range nbBits > 0 ==> fits(ival(den(v)), nbBits)
+
+// number of limbs: the ceiling of varSize/limbSize
+//@ contract decompSize
+//@   props C13
+//@   pure
+//@   requires limbSize >= 1 && varSize >= 0 && varSize < 4611686018427387904 && limbSize < 4611686018427387904
+//@   nopanic
+//@   ensures @ceil result * limbSize >= varSize && (result - 1) * limbSize < varSize && result >= 0
+
+// the limb width of the commit strategy is one of 2..17 (so the table has at most 2^17 rows)
+//@ contract optimalWidth
+//@   props C13
+//@   ensures @width (2 <= result && result <= 17) || result == 0
+//@   loop 1 invariant @min minVal == 0 || (2 <= minVal && minVal < j)
